@@ -673,6 +673,7 @@ func runC20(c *Ctx) {
 	c20BlankEager(c, c.RNG.Fork(), c.scale(30, 600)) // cheap, and first: a search with a time budget must reach it
 	c20BlankCancel(c, c.RNG.Fork(), c.scale(40, 800))
 	c20BlankSameSource(c, c.RNG.Fork(), c.scale(40, 800))
+	c20BlankWatcherInner(c, c.RNG.Fork(), c.scale(40, 800))
 	c20BlankSecondConfig(c, c.RNG.Fork(), c.scale(30, 500))
 	for i := c.scale(60, 1000); i > 0; i-- {
 		c20SharedDecoder(c, c.RNG.Fork())
